@@ -217,6 +217,17 @@ func (c cred) apply(r *http.Request, secret string) {
 		q.Set("p", c.urlP)
 	}
 	r.URL.RawQuery = q.Encode()
+	c.applyHeader(r, secret)
+}
+
+// hdrOp: the Authorization header in the model's encoding.
+func (c cred) hdrOp() string {
+	o := c.op()
+	return o[strings.Index(o, " h=")+1:]
+}
+
+// applyHeader puts the header part of the credentials on a request.
+func (c cred) applyHeader(r *http.Request, secret string) {
 	switch c.hdr {
 	case "basic":
 		r.Header.Set("Authorization", "Basic "+base64.StdEncoding.EncodeToString([]byte(c.hu+":"+c.hp)))
